@@ -319,7 +319,35 @@ func eachDialAndBadRequest(emit func(xferCase)) {
 	}
 }
 
+// eachMacLen: the MAC of the first, a middle and the last envelope replaced by every generated length
+// (0, 1, 9, 10, half, full-1, full+1, full+4), with and without forged records under an empty MAC,
+// for every HMAC algorithm.
+func eachMacLen(emit func(xferCase)) {
+	for _, alg := range algs {
+		ts := &tsigSpec{KeyName: "xfr-key.", Alg: alg, Secret: []byte("0123456789abcdef")}
+		for _, sh := range shapes(3) {
+			n := len(sh.flat())
+			for _, sizes := range someSizes(n) {
+				for j := range sizes {
+					for v := 0; v < 8; v++ {
+						for k := 0; k < 2; k++ {
+							if k == 1 && v != 0 {
+								continue
+							}
+							c := sh
+							c.Sizes, c.Tsig, c.Sender, c.Trailer = sizes, ts, "harness", true
+							c.Fault = faultSpec{Kind: "maclen", Env: j, K: k, Val: v}
+							emit(c)
+						}
+					}
+				}
+			}
+		}
+	}
+}
+
 func init() {
+	pbt.RegisterEnum(pbt.Enum[xferCase]{Name: "mac-length", Exhaustive: true, Each: eachMacLen, Check: checkXfer})
 	pbt.RegisterEnum(pbt.Enum[xferCase]{Name: "dial-and-bad-request", Each: eachDialAndBadRequest, Check: checkXfer})
 	pbt.RegisterEnum(pbt.Enum[xferCase]{Name: "slow-producer", Each: eachSlowProducer, Check: checkXfer})
 	pbt.RegisterEnum(pbt.Enum[xferCase]{Name: "ixfr-datagram", Each: eachDatagram, Check: checkXfer})
